@@ -16,7 +16,7 @@ from fractions import Fraction
 
 import numpy as np
 
-from common import REPO, VERIF, coq_bool, coq_list, coq_nat, frac, qc, qc_list, qc_mat, sh
+from common import REPO, VERIF, coq_bool, coq_list, coq_nat, frac, qc, qc_list, qc_mat, sh, source_pins
 
 TRUSTED_BASE = [
     "Coq 8.16.1 kernel + coqc (vm_compute only for the concrete witnesses of the *_refuted theorems, the non-vacuity example and the correspondence evaluation; no native_compute)",
@@ -36,6 +36,20 @@ RULE = ("all 8 updater classes x dimension n x {definite, indefinite} symmetric 
         "{random, curvature-consistent, near-orthogonal, tiny, zero step, orthogonal, y = H s, s = y = 0} x {no subspace, random index "
         "subspace of a larger matrix}; implementation-side oracles additionally for n up to 30 with float inputs; a case is "
         "non-trivial unless the updater is NullUpdate; distinct by (stream, class, n, H kind, vector kind, subspace, seed index)")
+
+# Functions the HAND-WRITTEN parts (Model.full_update / Model.first_applicable, and the harness's
+# update_h_from_old_h oracle which builds CartesianCoordinates and passes subspace_idxs = all indexes) were
+# written from and that the translator does not already regenerate or pin.  Already covered by
+# tr/translate_c09.py (no PINS entry needed): every _updated_h / _updated_h_inv / conditions_met,
+# _ensure_hermitian, _matrix_in_full_space, _apply_subspace, BFGSPDUpdate.__init__ (regenerated / exact body);
+# HessianUpdater.updated_h, updated_h_inv and OptCoordinates.update_h_from_old_h (exact statement text).
+# HessianUpdater.__init__ is only needle-checked there (statement ORDER is not), hence pinned here.
+PINS = [
+    ("autode/opt/optimisers/hessian_update.py", "HessianUpdater.__init__"),
+    ("autode/opt/coordinates/base.py", "OptCoordinates.active_mol_indexes"),
+    ("autode/opt/coordinates/base.py", "OptCoordinates.h_or_h_inv_has_correct_shape"),
+    ("autode/opt/coordinates/cartesian.py", "CartesianCoordinates.active_indexes"),
+]
 
 SLICE = ["lib/Sums.v", "lib/QcInst.v", "C09/Model.v", "C09/Lemmas.v", "C09/Props.v", "C09/Corr.v", "gen/C09_Gen.v"]
 PRE = ("From Coq Require Import ZArith QArith Qcanon List Bool.\nFrom AV.lib Require Import QcInst.\n"
@@ -399,15 +413,22 @@ def degenerate_case(cname, cls, h, s, y, kind, report):
                                                f"(division by zero) instead of leaving the Hessian unchanged")
 
 
-def first_applicable_case(ctx, rng, classes, n, report):
-    """update_h_from_old_h uses the first updater whose conditions are met."""
+def first_applicable_case(ctx, rng, classes, n, report, fixed=None):
+    """update_h_from_old_h uses the first updater whose conditions are met (on ALL coordinates of a
+    CartesianCoordinates object).  `report(key, what, extra_replay)`; `fixed`: a stored replay."""
     from autode.opt.coordinates import CartesianCoordinates
-    h = gen_h(rng, n, rng.choice(["definite", "indefinite"]))
-    x0 = np.array([rand_k8(rng) for _ in range(n)])
-    s, y = gen_sy(rng, n, h, rng.choice(["random", "curvature"]))
-    g0 = np.array([rand_k8(rng) for _ in range(n)])
-    names = [rng.choice(["BFGSPDUpdate", "BFGSDampedUpdate", "SR1Update", "BFGSUpdate", "BofillUpdate", "NullUpdate"])
-             for _ in range(rng.randint(1, 3))]
+    if fixed is None:
+        h = gen_h(rng, n, rng.choice(["definite", "indefinite"]))
+        x0 = np.array([rand_k8(rng) for _ in range(n)])
+        s, y = gen_sy(rng, n, h, rng.choice(["random", "curvature"]))
+        g0 = np.array([rand_k8(rng) for _ in range(n)])
+        names = [rng.choice(["BFGSPDUpdate", "BFGSDampedUpdate", "SR1Update", "BFGSUpdate", "BofillUpdate", "NullUpdate"])
+                 for _ in range(rng.randint(1, 3))]
+    else:
+        h, x0, s, y, g0 = (np.array(fixed[k], dtype=float) for k in ("h", "x0", "s", "y", "g0"))
+        names = fixed["names"]
+    data = {"kind": "first-applicable", "h": h.tolist(), "x0": x0.tolist(), "s": s.tolist(), "y": y.tolist(),
+            "g0": g0.tolist(), "names": names}
     old, new = CartesianCoordinates(x0), CartesianCoordinates(x0 + s)
     old._h, old._g, new._g = h.copy(), g0.copy(), g0 + y
     conds = []
@@ -417,23 +438,27 @@ def first_applicable_case(ctx, rng, classes, n, report):
     if any(isinstance(r["conditions_met"], tuple) for r in conds):
         return None
     want = next((k for k, r in enumerate(conds) if r["conditions_met"]), None)
+    got, exc = None, None
     with warnings.catch_warnings():
         warnings.simplefilter("ignore")
         with np.errstate(all="ignore"):
             try:
                 new.update_h_from_old_h(old, [classes[nm] for nm in names])
                 got = np.array(new._h, dtype=float)
-                exc = None
-            except RuntimeError as e:
-                got, exc = None, e
+            except Exception as e:  # noqa
+                exc = e
     case = {"names": names, "conds": [bool(r["conditions_met"]) for r in conds]}
-    if want is None:
+    if exc is not None and not (want is None and isinstance(exc, RuntimeError)):
+        report("first-applicable", f"update_h_from_old_h({names}) raised {type(exc).__name__}: {str(exc)[:80]} although "
+                                   f"{'no updater' if want is None else names[want]} is applicable on all {n} coordinates", data)
+    elif want is None:
         if exc is None:
-            report("first-applicable", f"update_h_from_old_h({names}) updated the Hessian although no updater's conditions are met")
+            report("first-applicable", f"update_h_from_old_h({names}) updated the Hessian although no updater's conditions are met", data)
     else:
         exp = conds[want]["updated_h"]
-        if exc is not None or (finite(exp) and not np.allclose(got, exp, rtol=1e-12, atol=1e-12)):
-            report("first-applicable", f"update_h_from_old_h({names}) did not use the first applicable updater {names[want]}")
+        if finite(exp) and (got.shape != exp.shape or not np.allclose(got, exp, rtol=1e-12, atol=1e-12)):
+            report("first-applicable", f"update_h_from_old_h({names}) did not return the update of the first applicable updater "
+                                       f"{names[want]} on all {n} coordinates", data)
     return case, want
 
 
@@ -444,12 +469,16 @@ def impl_oracles(ctx, classes, full, only=None):
     seen_keys = {}
 
     def make_report(rep):
-        def report(key, what):
+        def report(key, what, extra=None):
             nfail[0] += 1
             seen_keys[key] = seen_keys.get(key, 0) + 1
             if seen_keys[key] <= 1:          # one concrete replay per key
-                ctx.finding(key, what, rep)
+                ctx.finding(key, what, extra if extra is not None else rep)
         return report
+
+    if only is not None and only.get("kind") == "first-applicable" and "names" in only:
+        first_applicable_case(ctx, rng, classes, len(only["s"]), make_report(only), fixed=only)
+        return nfail[0]
 
     if only is not None:
         cname = only["class"]
@@ -705,7 +734,7 @@ def correspondence(ctx, classes, full):
     # first applicable updater: model of the loop vs update_h_from_old_h
     fa = []
     for k in range(40 if full else 15):
-        out = first_applicable_case(ctx, rng, classes, rng.randint(1, 4), lambda key, what: None)
+        out = first_applicable_case(ctx, rng, classes, rng.randint(1, 4), lambda key, what, extra=None: None)
         if out is None:
             continue
         case, want = out
@@ -732,6 +761,10 @@ def correspondence(ctx, classes, full):
 def run(ctx):
     sys.path.insert(0, REPO)
     full = not ctx.quick
+    pins_changed = source_pins(ctx.pid, PINS)
+    ctx.cov["source_pins"] = {"pinned": len(PINS), "changed": pins_changed}
+    if pins_changed:
+        ctx.log("source pins changed:", pins_changed)
     rc, out = sh(["python3", f"{VERIF}/tr/translate_c09.py"], timeout=120)
     ctx.log("translator:", out.strip()[:300])
     translated = rc == 0
@@ -760,6 +793,9 @@ def run(ctx):
     new_violation = any(not k.startswith("degenerate-step:") for k in ctx.cov.get("impl_failure_keys", []))
     if not proofs_ok:
         ctx.proof_failure(info, found_any_input=new_violation)
+    if pins_changed and not new_violation and proofs_ok and not (corr_bad or corr_err):
+        ctx.violation("hand model no longer pinned to the source: " + ", ".join(pins_changed),
+                      {"kind": "source-pin", "changed": pins_changed}, found_input=False)
     if corr_bad or corr_err:
         if not new_violation:
             ctx.violation("model and implementation disagree (correspondence stream model-vs-impl) and no property-level "
@@ -775,7 +811,7 @@ def replay(ctx, obj):
     sys.path.insert(0, REPO)
     classes = updater_classes()
     rep = obj.get("replay", {})
-    if rep.get("kind") == "impl-oracle" and "class" in rep:
+    if (rep.get("kind") == "impl-oracle" and "class" in rep) or (rep.get("kind") == "first-applicable" and "names" in rep):
         n = impl_oracles(ctx, classes, True, only=rep)
     else:
         n = impl_oracles(ctx, classes, True)
